@@ -110,8 +110,18 @@ func (p cliPkg) sources() map[string]string {
 // The verdicts depend on the build tags of the invocation: a package whose
 // tag-guarded injector file is broken fails only under that tag.
 func (p cliPkg) brokenUnder(tags string) bool {
-	return p.Kind == "ok" && p.Tagged && p.TagBroken && tags == "extra"
+	return p.Kind == "ok" && p.Tagged && p.TagBroken && hasTag(tags, "extra")
 }
+// hasTag reports whether the -tags value (comma- or space-separated) names tag.
+func hasTag(tags, tag string) bool {
+	for _, t := range strings.FieldsFunc(tags, func(r rune) bool { return r == ',' || r == ' ' }) {
+		if t == tag {
+			return true
+		}
+	}
+	return false
+}
+
 func (p cliPkg) failsGen(tags string) bool {
 	return strings.HasPrefix(p.Kind, "fail-") || p.brokenUnder(tags)
 }
